@@ -54,6 +54,18 @@ class Obligation:
         return s.to_smt2()
 
 
+_POOL_OBLS, _POOL_CHK = None, None
+
+
+def _pool_solve(i):
+    o = _POOL_OBLS[i]
+    try:
+        _POOL_CHK.solve_one(o)
+    except Exception as ex:
+        return ("error", None, 0.0, repr(ex))
+    return (o.verdict, o.backend, o.solver_s, o.detail)
+
+
 def uf_axiom_instances(terms):
     """defining axioms of the uninterpreted sqrt, instantiated for every sqrt(t) application occurring in the obligation
     (terms are renamed / substituted after creation, so the instances recorded at creation time may not match)"""
@@ -69,6 +81,8 @@ def uf_axiom_instances(terms):
             if t.decl().name() == "sqrt" and t.num_args() == 1:
                 a = t.arg(0)
                 out.append(z3.Implies(a >= 0, z3.And(t >= 0, t * t == a)))
+            if t.decl().name() == "fact" and t.num_args() == 1:
+                out.append(z3.Implies(t.arg(0) >= 0, t >= 1))
             stack.extend(t.children())
     return out
 
@@ -199,7 +213,7 @@ class Check:
     def solve_one(self, o):
         t0 = time.time()
         s = z3.Solver()
-        s.set("timeout", self.timeout_ms)
+        s.set("timeout", self.timeout_ms if o.expect == "unsat" else min(self.timeout_ms, 4000))
         for h in o.hyps:
             s.add(h)
         g = o.goal
@@ -208,7 +222,7 @@ class Check:
         s.add(z3.Not(g) if o.expect == "unsat" else g)
         r = s.check()
         o.backend = "z3-%s" % z3.get_version_string()
-        if r == z3.unknown:
+        if r == z3.unknown and o.expect == "unsat":
             r2 = self.cvc5(o)
             if r2 is not None:
                 r = r2
@@ -230,6 +244,41 @@ class Check:
             except Exception:
                 pass
         return o.verdict
+
+    def solve_all(self):
+        """discharge every obligation; with many obligations the work is spread over forked worker processes (each child
+        solves obligation i of the inherited list and returns only the verdict); refuted ones are re-solved here for their model"""
+        global _POOL_OBLS, _POOL_CHK
+        obls = self.obligations
+        jobs = int(os.environ.get("AOVC_JOBS", "0") or 0) or min(16, os.cpu_count() or 1)
+        if len(obls) < 24 or jobs <= 1:
+            for o in obls:
+                self._solve_guarded(o)
+            return
+        import multiprocessing as mp
+        _POOL_OBLS, _POOL_CHK = obls, self
+        try:
+            ctx = mp.get_context("fork")
+            with ctx.Pool(jobs) as pool:
+                results = pool.map(_pool_solve, range(len(obls)), chunksize=1)
+        except Exception as ex:      # pragma: no cover - fall back to sequential solving
+            self.notes.append("parallel solving failed (%r); solved sequentially" % ex)
+            results = None
+        if results is None:
+            for o in obls:
+                self._solve_guarded(o)
+            return
+        for o, (verdict, backend, secs, detail) in zip(obls, results):
+            o.verdict, o.backend, o.solver_s, o.detail = verdict, backend, secs, detail
+            if verdict in ("sat", "error") and o.expect == "unsat":
+                self._solve_guarded(o)       # in this process, to have the model for replay
+
+    def _solve_guarded(self, o):
+        try:
+            self.solve_one(o)
+        except Exception as ex:
+            o.verdict = "error"
+            o.detail = repr(ex)
 
     def cvc5(self, o):
         if not os.path.exists(CVC5):
@@ -284,6 +333,22 @@ class Check:
             data = json.load(fh)
         return [e for e in data.get("findings", []) if e.get("property") == self.prop_id]
 
+    def bounded_native(self, name, clause, bound, function=""):
+        """a bounded stand-in: the native clause evaluated on its deterministic family of inputs (never counted as proved)"""
+        fam = self.native("family", clause, None)
+        n = int(fam.get("evaluations", 0) or 0)
+        self.native_evals += n
+        self.bounded.append({"name": name, "function": function, "clause": clause, "bound": bound, "evaluations": n, "result": fam.get("status"), "detail": fam.get("message")})
+        if fam.get("status") == "fail":
+            if fam.get("finding") and self.matches_known([e for e in self.load_known() if e.get("status") == "open"], None, fam):
+                return
+            path = self.write_replay(None, fam.get("inputs"), fam, True)
+            self.violations.append((name, path, True))
+            print("FAILED bounded stand-in %s (%s): %s" % (name, clause, fam.get("message", "")))
+            print("VIOLATION property=%s replay=%s" % (self.prop_id, os.path.relpath(path, VERIF)))
+        elif fam.get("status") != "pass":
+            self.unsupported.append((name, "native family did not run: %s" % str(fam.get("error"))[:300]))
+
     def confirm_known(self, fid, clause, inputs):
         """an open finding: re-confirm its recorded witness natively and print the KNOWN-FINDING line; a failure of the same
         clause that is NOT tagged with this finding is a new violation"""
@@ -334,17 +399,14 @@ class Check:
         exit_code = 1 if self.violations else 0
         proof_obls = [o for o in self.obligations if o.expect == "unsat"]
         covers = [o for o in self.obligations if o.expect == "sat"]
-        for o in self.obligations:
-            try:
-                self.solve_one(o)
-            except Exception as ex:
-                o.verdict = "error"
-                o.detail = repr(ex)
+        self.solve_all()
         # vacuity
         for o in covers:
-            if o.verdict != "sat":
+            if o.verdict == "unsat":
                 print("VACUOUS cover=%s verdict=%s (preconditions contradictory or postcondition unreachable)" % (o.name, o.verdict))
                 exit_code = max(exit_code, 3)
+            elif o.verdict != "sat":
+                self.notes.append("reachability of %s not confirmed by the solver (%s)" % (o.name, o.verdict))
         known = self.load_known()
         open_known = [e for e in known if e.get("status") == "open"]
         # refutations
